@@ -94,7 +94,7 @@ def harnesses(tier):
     hs = []
     for N in Ns:
         for T in Ts:
-            hs += [h_apply(N, T), h_compose(N, T), h_factory(N, T, "translation"), h_factory(N, T, "scaling"), h_factory(N, T, "identity"), h_layer(N, T, (N % 4) + 1)]
+            hs += [h_apply(N, T), h_compose(N, T), h_factory(N, T, "translation"), h_factory(N, T, "scaling"), h_factory(N, T, "identity"), h_layer(N, T, (N % 4) + 1)] + ([h_layer(N, T, 1)] if N > 1 else [])
     return hs
 
 
